@@ -212,8 +212,10 @@ func (in *inliner) unrollRange(rs *ast.RangeStmt) ast.Stmt {
 			return nil
 		}
 	}
-	// the body must not leave or restart the loop, nor contain labels
+	// the body must not contain labels, goto or labelled branches; plain break/continue of the loop are
+	// rewritten (each row becomes a labelled one-armed switch to break out of)
 	okBody := true
+	usesBreak, usesContinue := false, false
 	var visit func(n ast.Node, loops, breakables int)
 	visit = func(n ast.Node, loops, breakables int) {
 		ast.Inspect(n, func(m ast.Node) bool {
@@ -239,12 +241,16 @@ func (in *inliner) unrollRange(rs *ast.RangeStmt) ast.Stmt {
 				case token.GOTO:
 					okBody = false
 				case token.BREAK:
-					if x.Label != nil || breakables == 0 {
+					if x.Label != nil {
 						okBody = false
+					} else if breakables == 0 {
+						usesBreak = true
 					}
 				case token.CONTINUE:
-					if x.Label != nil || loops == 0 {
+					if x.Label != nil {
 						okBody = false
+					} else if loops == 0 {
+						usesContinue = true
 					}
 				}
 			}
@@ -288,6 +294,7 @@ func (in *inliner) unrollRange(rs *ast.RangeStmt) ast.Stmt {
 		})
 	}
 	out := &ast.BlockStmt{Lbrace: rs.For, Rbrace: rs.End()}
+	suffix := in.fresh("")
 	for k, elt := range lit.Elts {
 		row, _ := ast.Unparen(elt).(*ast.CompositeLit)
 		if isStruct && row == nil && valObj != nil {
@@ -348,15 +355,30 @@ func (in *inliner) unrollRange(rs *ast.RangeStmt) ast.Stmt {
 			}
 			stmts = append(stmts, &ast.AssignStmt{Lhs: []ast.Expr{&ast.Ident{Name: valName, NamePos: rs.Value.Pos()}}, TokPos: rs.TokPos, Tok: token.DEFINE, Rhs: []ast.Expr{rhs}})
 		}
+		if usesContinue {
+			hc.contLabel = "C" + suffix + "_" + strconv.Itoa(k)
+		}
+		if usesBreak {
+			hc.breakLabel = "B" + suffix
+		}
 		body := hc.stmtList(rs.Body.List)
 		if failed {
 			return nil
 		}
 		blk := &ast.BlockStmt{Lbrace: rs.Body.Lbrace, List: append(stmts, body...), Rbrace: rs.Body.Rbrace}
 		simplifyConsts(blk)
-		out.List = append(out.List, blk)
+		if usesContinue {
+			sw := &ast.SwitchStmt{Switch: rs.For, Body: &ast.BlockStmt{Lbrace: rs.For, Rbrace: rs.For, List: []ast.Stmt{&ast.CaseClause{Case: rs.For, Colon: rs.For, Body: blk.List}}}}
+			out.List = append(out.List, &ast.LabeledStmt{Label: nid(hc.contLabel), Colon: rs.For, Stmt: sw})
+		} else {
+			out.List = append(out.List, blk)
+		}
 	}
 	in.stats.Unrolled++
+	if usesBreak {
+		sw := &ast.SwitchStmt{Switch: rs.For, Body: &ast.BlockStmt{Lbrace: rs.For, Rbrace: rs.For, List: []ast.Stmt{&ast.CaseClause{Case: rs.For, Colon: rs.For, Body: out.List}}}}
+		return &ast.LabeledStmt{Label: nid("B" + suffix), Colon: rs.For, Stmt: sw}
+	}
 	return out
 }
 
